@@ -219,5 +219,20 @@ CHECKS['C05'] = dict(
           'F24 (reserved-word property). Repo fixes: WITH header, non-space white space before `/`.'),
 )
 
+CHECKS['C13'] = dict(
+    engine='E2 tables + E1 pyvc/frame + E4',
+    level='other',
+    ref='DESIGN.md 4 (C13)',
+    technique='deductive per grammar production (real actions + real Node.set_comments on tagged comment tokens); contract on Lexer.token hand-over; syntactic frame obligation on the capture flag; bounded placement matrix with pretty-form round trip',
+    text=('For every production and child-shape combination (including all combinations of omitted optional children): comments reach a '
+          'node only from the terminal it is anchored on, verbatim, with the token\'s own position, in order, as the right comment '
+          'kind, and no captured comment is attached to two nodes built by one action; Lexer.token moves the collected list to the '
+          'returned token exactly once (6 state cases, path-complete); the capture flag is read only where the comment token is kept, '
+          'so the token stream is the same with and without capture; every node kind that can carry comments prints them first. '
+          'The statement\'s round-trip clause and "same acceptance" over all placements are a bounded stand-in, hence "other".'),
+    note=('Trusted: ply tracking contract; ASI/regex transparency inherited from C04/C05 with their findings. Known findings F25 '
+          '(comments on infix-anchored nodes move), F16 (comment splits a restricted production). Repo fix: CaseBlock comments.'),
+)
+
 NOT_APPLICABLE = {p: PENDING for p in ['C01', 'C02', 'C03', 'C07',
-                                        'C13', 'C19']}
+                                        'C19']}
